@@ -8,14 +8,15 @@
 import BlocV.Proofs.Lemmas.NoHazardExec
 namespace BlocV.NHI
 open BlocV BlocV.Lemmas
+variable {sub : Bool}
 
 /-! ## whole programs: `runProgram` -/
 
 /-- the literals of a whole program, function bodies included -/
-def litProgram (prog : List Stmt) : Bool :=
+def litProgram (sub : Bool) (prog : List Stmt) : Bool :=
   prog.all fun st => match st with
-    | .funcS _ _ _ body catches => litL body && litCatches catches
-    | st => litS st
+    | .funcS _ _ _ body catches => litL sub body && litCatches sub catches
+    | st => litS sub st
 
 theorem mem_addFunc (fs : List Func) (f g : Func) (h : g ∈ addFunc fs f) : g = f ∨ g ∈ fs := by
   unfold addFunc at h
@@ -30,8 +31,8 @@ theorem mem_addFunc (fs : List Func) (f g : Func) (h : g ∈ addFunc fs f) : g =
     · exact .inr h
     · exact .inl h
 
-theorem funcsOk_foldl (prog : List Stmt) (hl : lockProgram prog = true) (hv : litProgram prog = true) :
-    ∀ fs, FuncsOk fs → FuncsOk (prog.foldl (fun fs st => match st with
+theorem funcsOk_foldl (prog : List Stmt) (hl : lockProgram prog = true) (hv : litProgram sub prog = true) :
+    ∀ fs, FuncsOk sub fs → FuncsOk sub (prog.foldl (fun fs st => match st with
       | .funcS n ps rt b c =>
         let f0 : Func := { name := n, params := ps, ret := rt, body := b, catches := c }
         let fs0 := addFunc fs f0
@@ -57,7 +58,7 @@ theorem funcsOk_foldl (prog : List Stmt) (hl : lockProgram prog = true) (hv : li
       · exact hfs g hg
     · exact hfs
 
-theorem funcsOk_collect (prog : List Stmt) (hl : lockProgram prog = true) (hv : litProgram prog = true) : FuncsOk (collectFuncs prog) :=
+theorem funcsOk_collect (prog : List Stmt) (hl : lockProgram prog = true) (hv : litProgram sub prog = true) : FuncsOk sub (collectFuncs prog) :=
   funcsOk_foldl prog hl hv [] (fun _ h => by cases h)
 
 theorem lockL_of_program : ∀ (prog : List Stmt), lockProgram prog = true → lockL [] prog = true
@@ -70,12 +71,12 @@ theorem lockL_of_program : ∀ (prog : List Stmt), lockProgram prog = true → l
       cases st <;> first | exact this | simp [lockS]
     simp [lockL, h1, hr]
 
-theorem litL_of_program : ∀ (prog : List Stmt), litProgram prog = true → litL prog = true
+theorem litL_of_program : ∀ (prog : List Stmt), litProgram sub prog = true → litL sub prog = true
   | [], _ => by simp [litL]
   | st :: rest, h => by
     simp only [litProgram, List.all_cons, Bool.and_eq_true] at h
     have hr := litL_of_program rest h.2
-    have h1 : litS st = true := by
+    have h1 : litS sub st = true := by
       have := h.1
       cases st <;> first | exact this | simp [litS]
     simp [litL, h1, hr]
